@@ -32,18 +32,40 @@ func validateCase(stream string, g *GraphJ, sup []SupJ) *Case {
 			snaps[s.Name] = snapshot(t)
 		}
 		// introspection: what the model reports as enforced shapes
-		intro := map[string]any{}
-		for name, sh := range m.InputShapes() {
-			var ds []any
-			for _, d := range sh {
-				if d.IsDynamic {
-					ds = append(ds, nil)
-				} else {
-					ds = append(ds, d.Size)
+		readShapes := func() map[string]any {
+			intro := map[string]any{}
+			for name, sh := range m.InputShapes() {
+				var ds []any
+				for _, d := range sh {
+					if d.IsDynamic {
+						ds = append(ds, nil)
+					} else {
+						ds = append(ds, d.Size)
+					}
 				}
+				intro[name] = ds
 			}
-			intro[name] = ds
+			return intro
 		}
+		intro := readShapes()
+		// a caller may do what it likes with the values it got (fill in a batch size, reuse the slices):
+		// neither what is reported next nor what Run enforces may depend on that
+		scr := m.InputShapes()
+		for name, sh := range scr {
+			for i := range sh {
+				sh[i].IsDynamic = !sh[i].IsDynamic
+				sh[i].Size += 5
+			}
+			if len(sh) > 0 {
+				scr[name] = sh[:len(sh)-1]
+			}
+		}
+		for _, ns := range [][]string{m.InputNames(), m.OutputNames()} {
+			for i := range ns {
+				ns[i] = "scribble"
+			}
+		}
+		intro2 := readShapes()
 		names := m.InputNames()
 		dimsz := map[string]any{}
 		for _, n := range names {
@@ -77,7 +99,7 @@ func validateCase(stream string, g *GraphJ, sup []SupJ) *Case {
 			r.Mut = append(r.Mut, diffSnap(i, snaps[k], snapshot(ins[k]))...)
 			i++
 		}
-		r.Extra = map[string]any{"shapes": intro, "names": names, "dimsize": dimsz, "n_outs": len(outs)}
+		r.Extra = map[string]any{"shapes": intro, "shapes_again": intro2, "names": names, "dimsize": dimsz, "n_outs": len(outs)}
 		return r
 	})
 	return c
